@@ -108,25 +108,25 @@ func ConnWaitForStateChange(conn *grpc.ClientConn, ctx context.Context, s connec
 // ---------------------------------------------------------------- simulated RPC plumbing
 
 type rpcCall struct {
-	id       int
-	inc      int
-	done     bool
-	resp     []byte
-	errCode  codes.Code
-	errMsg   string
-	detail   []byte // serialized status details (P4 errors)
-	cancelled bool  // the client gave the call up (context done) before it completed
+	id        int
+	inc       int
+	done      bool
+	resp      []byte
+	errCode   codes.Code
+	errMsg    string
+	detail    []byte // serialized status details (P4 errors)
+	cancelled bool   // the client gave the call up (context done) before it completed
 }
 
 type RPCFaults struct {
-	LatMin   time.Duration
-	LatJit   time.Duration
-	SlowDen  int // 1 in SlowDen calls is delayed by SlowBy (beyond the join timeout)
-	SlowBy   time.Duration
-	SlowNth  int // exactly the n-th call (1-based) is delayed by SlowBy; 0 = off
-	FailDen  int // 1 in FailDen calls fails with a transport error
+	LatMin  time.Duration
+	LatJit  time.Duration
+	SlowDen int // 1 in SlowDen calls is delayed by SlowBy (beyond the join timeout)
+	SlowBy  time.Duration
+	SlowNth int // exactly the n-th call (1-based) is delayed by SlowBy; 0 = off
+	FailDen int // 1 in FailDen calls fails with a transport error
 	// FailNth fails exactly the n-th call (1-based) of the kinds counted by the service; 0 = off
-	FailNth  int
+	FailNth      int
 	FailLostResp bool // the failing call is applied, only the response is lost
 }
 
@@ -231,8 +231,8 @@ type SimBESS struct {
 	// default: the daemon applies what it has received
 	DropCancelled bool
 
-	PDR   map[string]*WCEntry            // key: masked values + masks
-	FAR   map[string]*EMEntry            // key: fields
+	PDR   map[string]*WCEntry             // key: masked values + masks
+	FAR   map[string]*EMEntry             // key: fields
 	Qos   map[string]map[string]*QosEntry // module -> key(fields) -> entry
 	Gtpu  map[uint32]int
 	Cmds  []BessCmd
@@ -241,7 +241,7 @@ type SimBESS struct {
 	// IdleTimeout: the channel reads IDLE after this long without an RPC (grpc-go default: 30 min)
 	IdleTimeout time.Duration
 	lastRPC     int64
-	Fired map[string]int
+	Fired       map[string]int
 	// OnApply is called after each applied command (oracles hook in here).
 	OnApply func(c BessCmd)
 }
@@ -249,7 +249,7 @@ type SimBESS struct {
 func newSimBESS(w *World) *SimBESS {
 	return &SimBESS{w: w, State: connectivity.Ready, Faults: RPCFaults{LatMin: 100 * time.Microsecond}, IdleTimeout: 30 * time.Minute,
 		PDR: map[string]*WCEntry{}, FAR: map[string]*EMEntry{},
-		Qos: map[string]map[string]*QosEntry{"appQERLookup": {}, "sessionQERLookup": {}, "sliceMeter": {}},
+		Qos:  map[string]map[string]*QosEntry{"appQERLookup": {}, "sessionQERLookup": {}, "sliceMeter": {}},
 		Gtpu: map[uint32]int{}, Fired: map[string]int{}}
 }
 
